@@ -359,7 +359,7 @@ def main():
             print("re-running witness finder on the real code:", w["how"])
             env = dict(os.environ); env["LUMINA_VERIF_DIR"] = VERIF
             r = subprocess.run(w["how"], shell=True, capture_output=True, text=True, env=env)
-            mm = re.search(r"WITNESS (.*)", r.stdout + r.stderr)
+            mm = re.search(r"(?<!NO-)WITNESS (.*)", r.stdout + r.stderr)
             print("WITNESS " + mm.group(1) if mm else "no witness reproduced")
             sys.exit(1 if mm else 0)
         print("witness:", json.dumps(w)[:2000])
@@ -570,8 +570,14 @@ def main():
                 else: violations.append(("kani", kc["pkg"], f))
         trusted.update(kc.get("trusted", []))
 
-    # native bounded stand-ins (thorough tier): exhaustive enumerators on the real code
-    for nc in cfg.get("native", []):
+    # native bounded stand-ins: exhaustive enumerators / random models on the real code. The thorough tier runs the big
+    # ones; the quick tier runs the quick-sized one that also serves as witness finder - ALWAYS, not only after a failed
+    # proof: parts of several properties live in code that is a stub for the verifier (seeds C05-b, C10-b were missed
+    # while this only ran on failure)
+    natives = list(cfg.get("native", []))
+    if cfg.get("witness") and not any(n.get("tier") == "quick" and n["cmd"] == cfg["witness"]["cmd"] for n in natives):
+        natives.append({"name": "witness-finder", "cmd": cfg["witness"]["cmd"], "tier": "quick", "bound": cfg["witness"].get("bound", ""), "timeout": cfg["witness"].get("timeout", 1800)})
+    for nc in natives:
         if nc.get("tier", "thorough") == "thorough" and tier != "thorough":
             continue
         cmd = nc["cmd"].replace("{verif}", VERIF).replace("{repo}", REPO).replace("{target}", KANI_TARGET).replace("{name}", "")
@@ -583,7 +589,7 @@ def main():
             undecided.append("native stand-in timed out"); continue
         cmds.append(cmd)
         mm = re.search(r"ENUM-OK cases=(\d+)", out)
-        mw = re.search(r"WITNESS (.*)", out) or (re.search(r"(panicked at [^\n]*\n[^\n]*)", out) if "test result: FAILED" in out else None)
+        mw = re.search(r"(?<!NO-)WITNESS (.*)", out) or (re.search(r"(panicked at [^\n]*\n[^\n]*)", out) if "test result: FAILED" in out else None)
         # failing inputs the enumerator classified under a key: a listed known finding, or else a violation
         for mk in re.finditer(r"KNOWN-CANDIDATE (\S+) ([^\n]*)", out):
             fk = {"fn": nc["name"], "kind": "native-enum", "clause": (mk.group(1) + " " + mk.group(2))[:400], "text": out[-3000:], "harness": nc["name"]}
@@ -591,13 +597,13 @@ def main():
             if kk:
                 if not any(k0 is kk for (k0, _) in known_hits): known_hits.append((kk, fk))
             else: violations.append(("native", nc["name"], fk))
-        if mm:
-            bounded.append({"harness": nc["name"], "bound": nc.get("bound", ""), "cases": int(mm.group(1)), "status": "SUCCESSFUL"})
-        elif mw:
+        if mw:
             f = {"fn": nc["name"], "kind": "native-enum", "clause": mw.group(1)[:300], "text": out[-3000:], "harness": nc["name"]}
             k = match_known(known, pid, f)
             if k: known_hits.append((k, f))
             else: violations.append(("native", nc["name"], f))
+        elif mm:
+            bounded.append({"harness": nc["name"], "bound": nc.get("bound", ""), "cases": sum(int(x) for x in re.findall(r"ENUM-OK cases=(\d+)", out)), "status": "SUCCESSFUL"})
         else:
             undecided.append(f"native stand-in {nc['name']} gave no verdict: {out[-600:]}")
 
@@ -681,7 +687,7 @@ def run_witness(wf, pid, f, path):
         env = dict(os.environ); env["LUMINA_VERIF_DIR"] = VERIF
         r = subprocess.run(cmd, shell=True, capture_output=True, text=True, timeout=wf.get("timeout", 900), env=env)
         out = r.stdout + r.stderr
-        m = re.search(r"WITNESS (.*)", out)
+        m = re.search(r"(?<!NO-)WITNESS (.*)", out)
         if m:
             return {"found": True, "input": m.group(1), "how": cmd, "bound": wf.get("bound"), "output_tail": out[-1500:]}
         # the real code panicked while the finder was driving it: that execution is the witness
